@@ -124,6 +124,13 @@ CELLS = [
     ("std/signal-resumed", G2, False,
      {"checkpointing": True, "maximum_uninformed": 50},
      [{"event": "population", "k": 1, "signal": "SIGTERM"}]),
+    # a quarter of a million samples: every flow evaluates more than 1e5
+    # points in one call
+    ("ins/large", G2, True,
+     {"nlive": 60000, "min_samples": 100, "max_iteration": 3,
+      "flow_config": {"n_blocks": 2, "n_neurons": 8},
+      "training_config": {"max_epochs": 20, "patience": 5,
+                          "batch_size": 5000}}),
     ("ins/resumed", G2, True,
      {"checkpointing": True, "checkpoint_interval": 1},
      [{"event": "level", "k": 5}]),
